@@ -34,7 +34,7 @@ Definition show_onats (l : list (option nat)) : string :=
 Definition judge_sample (c o : sexp) : verdict :=
   match get_nat "n" c, get_nat "k" c, get_bool "replace" c, get_nats "selected" c, get_nat "rc" c, get_raw o with
   | Some n, Some k, Some repl, Some sel, Some rc, Some raw =>
-    let bounds := if repl then replace_bounds k n else reservoir_bounds go_bound k n in
+    let bounds := if repl then replace_bounds k n else reservoir_bounds code_bound k n in
     if existsb (Nat.eqb 0) bounds then
       (* rand.Intn(0) panics *)
       if Nat.eqb rc 0 then VCorr "model: rand.Intn(0) panics; the command succeeds" else VOk false "sample:intn0"
@@ -62,11 +62,11 @@ Definition judge_prune (c o : sexp) : verdict :=
   match get_strings "tips" c, get_nat "k" c, get_bool "revert" c, get_strings "remaining" c, get_nat "rc" c, get_raw o with
   | Some tips, Some k, Some rev, Some remaining, Some rc, Some raw =>
     let n := length tips in
-    let bounds := reservoir_bounds go_bound k n in
+    let bounds := reservoir_bounds code_bound k n in
     match draws bounds raw with
     | None => VBad "recorded stream too short"
     | Some (cs, _) =>
-      match reservoir go_bound k tips cs with
+      match reservoir code_bound k tips cs with
       | None => VBad "model: choice vector too short"
       | Some out =>
         let sampled := flat_map (fun s => match s with Some x => [x] | None => [] end) out in
@@ -178,9 +178,9 @@ Definition judge_enum (op : string) (c : sexp) : verdict :=
   let res : option (option string) :=
       if String.eqb op "enum-sample" then
         n <- get_nat "n" c ;; k <- get_nat "k" c ;; r <- get_bool "replace" c ;;
-        Some (if r then enum_replace n k else enum_reservoir go_bound n k)
+        Some (if r then enum_replace n k else enum_reservoir code_bound n k)
       else if String.eqb op "enum-prune" then
-        n <- get_nat "n" c ;; k <- get_nat "k" c ;; Some (enum_reservoir go_bound n k)
+        n <- get_nat "n" c ;; k <- get_nat "k" c ;; Some (enum_reservoir code_bound n k)
       else if String.eqb op "enum-std" then
         n <- get_nat "n" c ;; k <- get_nat "k" c ;; Some (enum_reservoir std_bound n k)
       else if String.eqb op "enum-uniform" then
